@@ -12,4 +12,5 @@ def main (args : List String) : IO UInt32 := do
   | ["listener"] => Driver.SessInC.mainL; return 0
   | ["fec"] => Driver.FecC.main; return 0
   | ["autotune"] => Driver.AutoTuneC.main; return 0
+  | ["cfb"] => Driver.CfbC.main; return 0
   | _ => IO.eprintln "usage: kcpdriver <component>"; return 2
